@@ -109,6 +109,7 @@ class Machine:
 		self.functions = functions  # name -> (params [(name, type, default_expr|None)], body, return_type)
 		self.classes_def = classes or {}  # name -> {'base', 'fields', 'methods', 'inits', 'super_args'}: an object value is ('obj', (class name, {field: value}))
 		self.cur_class: list = []  # classes whose method bodies are being executed (C++ resolves this->m() statically)
+		self.source_field_order: dict = {}  # C++ machine only: class -> member names in the order of the *Python* class body
 		self.lang = lang  # 'py' | 'cpp'
 		self.premises = premises  # only the Python run records premises
 		self.unroll = unroll
@@ -534,8 +535,10 @@ class Machine:
 		reads = {f: attrs_read(x) for f, x in inits.items()}
 		order = list(d['fields'])
 		for f, used in reads.items():
-			if any(u in order and f in order and order.index(u) > order.index(f) for u in used):
-				# C++ initialises members in declaration order: this initialiser reads a member declared after it
+			src_order = self.source_field_order.get(cls, order)
+			if any(u in src_order and f in src_order and src_order.index(u) > src_order.index(f) for u in used):
+				# C++ initialises members in declaration order: this initialiser reads a member the *source* declares after it
+				# (the listed finding; an inversion that only exists in the emitted order is not covered by it)
 				self.tag('member-init-declaration-order', z3.BoolVal(False), guard)
 			if any(st[0] == 'setattr' and st[1] == 'this' and st[2] in used for st in flat(body)):
 				# the constructor body stores to a member that an initialiser (hoisted in front of the body) has read
